@@ -61,6 +61,7 @@ func computeFlow(c *Ctx, s FlowSpec) (*FlowTable, string, error) {
 		return nil, "", err
 	}
 	d := apo.NewDescriber(fn)
+	d.MakeLen = true
 	ft := &FlowTable{Func: s.Func, Cfg: s.Cfg}
 	set := map[string]bool{}
 	rets := map[string]bool{}
@@ -69,6 +70,7 @@ func computeFlow(c *Ctx, s FlowSpec) (*FlowTable, string, error) {
 	var expand func(f *ssa.Function, args []string, depth int)
 	expand = func(f *ssa.Function, args []string, depth int) {
 		hd := apo.NewDescriber(f)
+		hd.MakeLen = true
 		for _, b := range f.Blocks {
 			for _, in := range b.Instrs {
 				ci, ok := in.(ssa.CallInstruction)
@@ -365,6 +367,30 @@ func FlowSpecs(c *Ctx, prop string) ([]FlowSpec, []string) {
 	switch prop {
 	case "C03":
 		return FlowSpecsC03(c)
+	case "C18", "C06":
+		// suite accessors hand out the group built from the matching domain / constructor
+		p := c.Prog("default")
+		if p == nil {
+			return nil, nil
+		}
+		var out []FlowSpec
+		if it := p.LookupInterface(core.ModPath+"/pairing", "Suite"); it != nil {
+			for _, nt := range p.Implementors(it) {
+				for _, m := range []string{"G1", "G2", "GT"} {
+					if fn := p.Method(nt, m); fn != nil && len(fn.Blocks) > 0 && fn.Synthetic == "" {
+						out = append(out, FlowSpec{Func: shortFn(fn), Callee: `.`, Ret: true})
+					}
+				}
+			}
+		}
+		return out, nil
+	case "C14":
+		// proof transcripts are read through the stream wrappers: exactly MarshalSize bytes, io.ReadFull
+		var out []FlowSpec
+		for _, f := range []string{"group/internal/marshalling.PointUnmarshalFrom", "group/internal/marshalling.ScalarUnmarshalFrom"} {
+			out = append(out, FlowSpec{Func: f, Callee: `.`, Ret: true})
+		}
+		return out, nil
 	case "C02":
 		// SetBytes / setInt / byte-order helpers of the scalar types: declared byte order, full-width copies
 		all, _ := FlowSpecsC03(c)
